@@ -11,7 +11,11 @@ class SoftTimeout(BaseException):
     pass
 
 
+FIRED = [False]
+
+
 def _alarm(*a):
+    FIRED[0] = True
     raise SoftTimeout()
 
 
@@ -42,6 +46,7 @@ def main():
             res = {'inconclusive': [st]}
         else:
             try:
+                FIRED[0] = False
                 signal.alarm(soft)
                 # every 23rd case of every check runs with the root log level at DEBUG: the library guards
                 # extra work with logger.isEnabledFor(DEBUG), and answers must not depend on the log level
@@ -58,6 +63,11 @@ def main():
                 if dbg and isinstance(res, dict):
                     res.setdefault('counters', {})['cases_with_debug_log_level'] = 1
                 signal.alarm(0)
+                if FIRED[0]:
+                    # the watchdog's exception was raised inside a native callback and came back wrapped in
+                    # another exception type (ctypes.ArgumentError 'argument 1: SoftTimeout' from z3), so the
+                    # case carried on: whatever it recorded after that point is not an observation of the library
+                    res = {'inconclusive': ['soft watchdog (%ds) fired inside a native call' % soft]}
             except SoftTimeout:
                 res = {'inconclusive': ['soft watchdog (%ds) fired' % soft]}
             except BaseException:
